@@ -1,7 +1,7 @@
 """C20 - debug, dump and profiling options never change behaviour."""
 import ast
 
-from ..cfg import cfg_of, N, X
+from ..cfg import cfg_of, N, X, ExcHierarchy
 from ..errors import AnalysisError
 from ..frontend import C_INT_TYPES, C_FLOAT_TYPES
 from ..roles import Roles
@@ -295,6 +295,17 @@ def diag_conversions(R, ro, rule):
                 unsafe.append((node, "`%s`" % q.src(node)[:40], safe_operand(f, node.args[0])))
             elif isinstance(node, ast.FormattedValue):
                 unsafe.append((node, "f-string field `%s`" % q.src(node.value)[:40], safe_operand(f, node.value)))
+            elif isinstance(node, ast.BinOp) and (isinstance(node.op, (ast.Div, ast.FloorDiv)) or (isinstance(node.op, ast.Mod) and not (isinstance(node.left, ast.Constant) and isinstance(node.left.value, str)))):
+                # a division by something that can be zero (len() of a collection the flush has cleared): ZeroDivisionError with the option on only
+                dv = node.right
+                nonzero = isinstance(dv, ast.Constant) and isinstance(dv.value, (int, float)) and dv.value != 0
+                tested = any(isinstance(a_, (ast.If, ast.IfExp)) and q.src(dv) in q.src(a_.test) for a_ in q.ancestors(node))
+                unsafe.append((node, "the division `%s`" % q.src(node)[:40], nonzero or tested))
+            elif isinstance(node, ast.Call) and (q.call_name(node) or "").split(".")[-1] == "get_full_name" and node.args:
+                # qcore names a class or function by module and __name__, anything else (a callable object) by str()
+                a0 = node.args[0]
+                unsafe.append((node, "`%s` (str() of a callable object that has no __name__)" % q.src(node)[:50],
+                               isinstance(a0, ast.Call) and q.call_name(a0) == "type"))
             elif isinstance(node, ast.Call) and q.attr_call(node)[1] in USER_HOOKS:
                 unsafe.append((node, "the user hook `%s`" % q.src(node)[:40], False))
             for o, what, safe in unsafe:
@@ -408,6 +419,35 @@ def run(R):
                     continue
                 er.problems = []
                 on, off = (node.body, node.orelse) if pol else (node.orelse, node.body)
+                # what runs only with the option on reads asynq's bookkeeping attributes of a foreign object (an exception: _task,
+                # _traceback, _type_) only where the object is known to carry them: stamping is skipped for exceptions that refuse
+                # attributes, and the read would raise AttributeError - with the option on only
+                for st_ in on:
+                    for x in ast.walk(st_):
+                        if isinstance(x, ast.Attribute) and isinstance(x.ctx, ast.Load) and isinstance(x.value, ast.Name) and x.value.id != "self" \
+                                and x.attr in ("_task", "_traceback", "_type_"):
+                            hier_ = ExcHierarchy(R.repo)
+                            prot = any(kit.handler_covers(h, "Exception", hier_) and not kit.handler_reraises(h) for t in kit.enclosing_try_handlers(x) for h in t.handlers)
+                            if not prot:
+                                cfg_ = cfg_of(f)
+                                stx = q.enclosing_stmt(x)
+                                nodes_x = [y for y in cfg_.nodes if y.stmt is stx]
+
+                                def carries(nd, x=x):
+                                    if nd.kind != "test":
+                                        return None
+                                    e_, pos_ = nd.ast, True
+                                    while isinstance(e_, ast.UnaryOp) and isinstance(e_.op, ast.Not):
+                                        e_, pos_ = e_.operand, not pos_
+                                    if isinstance(e_, ast.Call) and q.call_name(e_) == "hasattr" and len(e_.args) == 2 and q.src(e_.args[0]) == x.value.id \
+                                            and isinstance(e_.args[1], ast.Constant) and e_.args[1].value == x.attr:
+                                        return "T" if pos_ else "F"
+                                    return None
+                                prot = bool(nodes_x) and kit.path_avoiding_guard(cfg_, nodes_x, carries, N, dead_ok=True) is None and bool(kit.guard_edges_exist(cfg_, carries))
+                            R.check(prot, "C20.DIAG-SAFE", "%s:%s:reads:%s.%s" % (f.qualname, name, x.value.id, x.attr), R.site(f, x),
+                                    "`%s` under %s is read from an object known to carry it" % (q.src(x), name),
+                                    "with %s on, %s reads `%s` of an object that need not carry it (an exception that refused asynq's bookkeeping attributes "
+                                    "has none): AttributeError escapes where, with the option off, the error is delivered normally" % (name, f.qualname, q.src(x)))
                 a, b = er.erase(on), er.erase(off)
                 if extra:
                     okx = all(er.pure(x) for x in extra)
